@@ -94,6 +94,10 @@ func (g *Gen) strLen() int {
 		if g.Big && g.R.Intn(60) == 0 {
 			return []int{65535, 65536, 65537}[g.R.Intn(3)]
 		}
+		if g.Big && g.R.Intn(50) == 0 {
+			// the regions between the boundary values: a few hundred bytes up to ~2^17
+			return 301 + g.R.Intn([]int{700, 4000, 66000, 140000}[g.R.Intn(4)])
+		}
 		return g.R.Intn(300)
 	default:
 		return g.R.Intn(24)
